@@ -21,9 +21,20 @@ attributed per subscription: using's resources are numbered (resource j is the o
 subscribe() call and must be released exactly once, at that subscription's stop); the shared finally actions
 must run once at the stopping input of EACH stopped subscription (after its terminal notification), never
 elsewhere; every subscriber must see its own upstream's notifications unchanged.  The faulty-upstream family
-likewise runs its whole procedure twice on one observable (sequentially / overlapping)."""
+likewise runs its whole procedure twice on one observable (sequentially / overlapping).
+
+Oracle-only RE-ENTRANT family (harness/c40_reent.py): the finalizer / callback is not a passive spy but ACTS on
+the pipeline it belongs to when it is invoked -- it feeds a notification or a terminal back into the source
+(Subject, Subject under take_until whose stop it may push, raw unguarded source), disposes the subscription it
+belongs to, or subscribes once more to the same observable; for using (the resource's dispose()),
+finally_action, do_finally, do_on_dispose, do_on_terminate, do_after_terminate and each of do_action's three
+callbacks.  After EVERY top-level step: finalizer runs so far == subscriptions stopped so far (exactly once per
+subscription however the finalizer is re-entered), each numbered resource's dispose() called exactly once;
+do_action callbacks observe exactly what is delivered (an observed notification stays undelivered only if the
+callback itself stopped the subscription); nothing may escape into the driver."""
 import json
 
+import c40_reent
 import k2
 import k2m
 import lib
@@ -845,6 +856,9 @@ def run(chk):
                               size=len(sp["pre"]) + sp["dispose"] + (1 if sp["later"] else 0))
             elif r["expected"] == 1 and r["escaped"]:
                 nontrivial.add("faulty|" + json.dumps(r, sort_keys=True, default=str))
+    # re-entrant finalizers / callbacks (oracle only): the spy itself terminates / feeds / disposes / re-subscribes
+    reent_hist, reent_nontrivial = c40_reent.run_family(chk)
+    nontrivial |= {"reentrant|" + x for x in reent_nontrivial}
     chk.cov["distinct_nontrivial"] = len(nontrivial)
     chk.cov["rule"] = ("per operator (using, finally_action, do_finally, do_on_dispose, do_action, do, do_after_next, "
                        "do_on_subscribe, do_on_terminate, do_after_terminate): seeded parameters (resource factory: "
@@ -863,13 +877,30 @@ def run(chk):
                        "(cold prefix, 0-4 elements, terminal or none, non-conforming tails), a dispose step (25-45%), "
                        "a dispose from inside the k-th on_next (reentrant: always; else 20%), upstream deaf to "
                        "dispose (30-40%); effects attributed per subscription (numbered resources; finally actions "
-                       "matched to each subscription's stopping step)")
-    chk.cov["input_distribution"] = {"per_operator": per_op, "raising_finalizer_runs": nr,
+                       "matched to each subscription's stopping step).  Re-entrant family (oracle only, "
+                       "harness/c40_reent.py), per operator (using, finally_action, do_finally, do_on_dispose, "
+                       "do_on_terminate, do_after_terminate, do_action with the hook in its on_next / on_error / "
+                       "on_completed callback) x re-entrance shape {terminate, feed, dispose, resubscribe} x source "
+                       "{Subject, Subject under take_until, raw unguarded source with cold prefix / deaf to dispose}: "
+                       "the k-th invocation of the finalizer / callback executes the k-th op list of the scenario "
+                       "(1-2 lists of 1-2 ops: push N/C/E into the source, push take_until's stop, dispose "
+                       "subscription i, subscribe again to the same observable); top-level steps: subscribe, 0-3 "
+                       "elements, an end (dispose / C / E / stop / none), 0-3 further steps (pushes, second dispose, "
+                       "late terminal, second subscription); after every top-level step finalizer runs == stopped "
+                       "subscriptions, k-th run after the k-th stop, one resource per subscribe() with dispose() "
+                       "called exactly once, terminate callbacks between delivered and pushed terminals, do_action "
+                       "observed >= delivered (single subscription: exactly once, undelivered only if the callback "
+                       "stopped the subscription), quiet steps are the identity, nothing escapes (exception / "
+                       "recursion / hang = violation); failing scenarios are shrunk greedily; non-trivial = a hook "
+                       "op ran, a subscription stopped and the oracle held")
+    chk.cov["input_distribution"] = {"per_operator": per_op, "raising_finalizer_runs": nr, "reentrant": reent_hist,
                                      "faulty_upstream_runs": nf, "faulty_upstream_kinds": fkinds,
                                      "per_subscription_plans": plan_hist, **hist}
     chk.add_samples([{"case": c[0], "trace": c[1]} for c in cases[:: max(1, len(cases) // 5)]][:5])
     return chk.finish(
-        trusted_extra=["multi-source K2 driver harness/k2m.py (boundary log, proxy scheduler, canonical per-instant "
+        trusted_extra=["re-entrant family driver harness/c40_reent.py (hook programs, raw source, stop/finalizer "
+                       "bookkeeping, greedy shrinker)",
+                       "multi-source K2 driver harness/k2m.py (boundary log, proxy scheduler, canonical per-instant "
                        "ordering) and the cold-prefix source / spy callbacks of harness/props/C40.py",
                        "runner assumption (Ops/Multi.v): the disposable an operator returns holds every subscription "
                        "and timer it opened -- checked here by comparing unsubscribe/cancel instants"],
@@ -880,12 +911,24 @@ def run(chk):
                      "the oracle only (exactly one invocation)",
                      "per-subscription plans: a finally action is one shared callable, so its runs are attributed to "
                      "subscriptions by the step at which they happen (each step concerns exactly one subscription); "
-                     "every operator here subscribes upstream at most once per subscribe(), synchronously"])
+                     "every operator here subscribes upstream at most once per subscribe(), synchronously",
+                     "re-entrant family: finalizer runs are counted against stopped subscriptions after every "
+                     "top-level step (a shared callable cannot be attributed inside a step; using's resources are "
+                     "numbered and counted individually); a subscription counts as stopped from its subscriber's "
+                     "terminal notification or the first dispose() call on its handle; the order of deliveries "
+                     "inside a step in which a hook ran is not judged"])
 
 
 def replay(chk, path):
     d = json.load(open(path))
     lib.import_repo()
+    if "reentrant" in d:
+        bad, out = c40_reent.replay(d)
+        print(json.dumps(out, indent=1))
+        if bad:
+            print(f"VIOLATION property=C40 replay={path}")
+            return 1
+        return 0
     if "raising_finalizer" in d:
         print(json.dumps(d, indent=1))
         return 1
